@@ -430,6 +430,16 @@ pub fn real_asserts(prop: &str, case: &Case, real: &Obs, all: &dyn Fn(&str, &str
                     return Some(format!("a parser built from clones of its parts behaves differently: {:?} vs {:?}", a, b));
                 }
             }
+            // the same history through one chumsky::cache::Cache (a parser built for 'static, used at every input lifetime)
+            if case.kind == "str" && case.ety == "rich" {
+                if let Ok(o) = crate::run::run_hist_cache(case, &case.mode) {
+                    let a: Vec<_> = o.past.iter().chain(std::iter::once(&o)).map(key).collect();
+                    let b: Vec<_> = real.past.iter().chain(std::iter::once(real)).map(key).collect();
+                    if a != b {
+                        return Some(format!("a parser kept in a Cache behaves differently: {:?} vs {:?}", a, b));
+                    }
+                }
+            }
             // every parse of the history against a fresh parser on that input alone
             let mut inputs = vec![case.inp.clone()];
             inputs.extend(case.more.iter().cloned());
